@@ -34,7 +34,7 @@ CLAIMS.update({
         "small widths); find_good_cmap_subtable follows the documented preference order over 3 symbolic encoding records; Mac Roman "
         "conversions are mutual inverses for all 256 bytes and all chars; offset_to_index by MIR->SMT; the encoding dispatch of "
         "Font::lookup_glyph_index on a Font built by the real Font::new: Windows Symbol (U+F020..U+F0FF and their single-byte aliases reach the "
-        "same glyph) and, thorough, Mac Roman for every char. Format 2 (550-byte subtable, all 256 subHeaderKeys, 3 subheaders and 4 glyphIndexArray entries symbolic): single-byte codes map through subheader 0, two-byte codes through their lead byte's subheader, idDelta modulo 65536 on non-zero entries, sub-arrays outside the table are errors; the parser takes max(key)/8+1 subheaders; thorough: format 2 enumeration lists exactly the single lookups.",
+        "same glyph) and, thorough, Mac Roman for every char. Format 2 (550-byte subtable, all 256 subHeaderKeys, 3 subheaders and 4 glyphIndexArray entries symbolic): single-byte codes map through subheader 0, two-byte codes through their lead byte's subheader, idDelta modulo 65536 on non-zero entries, sub-arrays outside the table are errors; the parser takes max(key)/8+1 subheaders (format 2 enumeration against single lookups was attempted in the thorough tier: no answer in 2000 s, so it is NOT decided).",
         "Outside: format 2 codes that are not valid in the encoding (only panic-freedom), more segments/groups than stated, Big5 (encoding_rs), OS/2 usFirstCharIndex other than the default, "
         "variation-selector presentation matching, the 0xFFFF idRangeOffset work-around. Oracles are my restatement of the OpenType cmap chapter.",
         "DESIGN.md section 6, C06", TECH_KANI + "; " + TECH_SMT),
